@@ -1,0 +1,102 @@
+//go:build verif
+
+// Twin of raft.go for the simulation harness: same exported API, but instead of starting
+// hashicorp/raft on a TCP transport the node's REAL state machine (NewFSM, fsm.go,
+// fsm_snapshot.go - unchanged) is registered with the harness through verifhook.JoinRaft.
+
+package raft
+
+import (
+	"context"
+	"errors"
+	"net"
+	"time"
+
+	"github.com/echovault/sugardb/internal"
+	"github.com/echovault/sugardb/internal/config"
+	"github.com/echovault/sugardb/internal/memberlist"
+	"github.com/echovault/sugardb/verifhook"
+	"github.com/hashicorp/raft"
+)
+
+type Opts struct {
+	Config                config.Config
+	SetValues             func(ctx context.Context, entries map[string]interface{}) error
+	SetExpiry             func(ctx context.Context, key string, expire time.Time, touch bool)
+	GetState              func() map[int]map[string]internal.KeyData
+	GetCommand            func(command string) (internal.Command, error)
+	DeleteKey             func(ctx context.Context, key string) error
+	StartSnapshot         func()
+	FinishSnapshot        func()
+	SetLatestSnapshotTime func(msec int64)
+	GetHandlerFuncParams  func(ctx context.Context, cmd []string, conn *net.Conn) internal.HandlerFuncParams
+}
+
+type Raft struct {
+	options Opts
+	node    verifhook.RaftNode
+}
+
+func NewRaft(opts Opts) *Raft {
+	return &Raft{
+		options: opts,
+	}
+}
+
+func (r *Raft) RaftInit(ctx context.Context) {
+	fsm := NewFSM(FSMOpts{
+		Config:                r.options.Config,
+		GetState:              r.options.GetState,
+		GetCommand:            r.options.GetCommand,
+		SetValues:             r.options.SetValues,
+		SetExpiry:             r.options.SetExpiry,
+		DeleteKey:             r.options.DeleteKey,
+		StartSnapshot:         r.options.StartSnapshot,
+		FinishSnapshot:        r.options.FinishSnapshot,
+		SetLatestSnapshotTime: r.options.SetLatestSnapshotTime,
+		GetHandlerFuncParams:  r.options.GetHandlerFuncParams,
+	})
+	if verifhook.JoinRaft == nil {
+		panic("verif build: no simulation harness installed (verifhook.JoinRaft is nil)")
+	}
+	r.node = verifhook.JoinRaft(r.options.Config.ServerID, fsm, r.options.Config.BootstrapCluster)
+}
+
+func (r *Raft) Apply(cmd []byte, timeout time.Duration) raft.ApplyFuture {
+	return r.node.Apply(cmd, timeout)
+}
+
+func (r *Raft) IsRaftLeader() bool {
+	return r.node.IsLeader()
+}
+
+func (r *Raft) HasJoinedCluster() bool {
+	return r.node.HasJoined()
+}
+
+func (r *Raft) AddVoter(
+	id raft.ServerID,
+	address raft.ServerAddress,
+	prevIndex uint64,
+	timeout time.Duration,
+) error {
+	if r.IsRaftLeader() {
+		return r.node.AddVoter(string(id), string(address))
+	}
+	return nil
+}
+
+func (r *Raft) RemoveServer(meta memberlist.NodeMeta) error {
+	if !r.IsRaftLeader() {
+		return errors.New("not leader, could not remove node")
+	}
+	return r.node.RemoveServer(string(meta.ServerID))
+}
+
+func (r *Raft) TakeSnapshot() error {
+	return r.node.Snapshot()
+}
+
+func (r *Raft) RaftShutdown() {
+	r.node.Shutdown()
+}
